@@ -6,7 +6,7 @@ import tempfile
 import numpy
 
 from .. import fixtures, gridcases
-from ..core import digest, close
+from ..core import digest, close, scratch_dir
 from . import c10, c17
 
 META = {
@@ -21,7 +21,7 @@ META = {
                     "events simulation-based results must be bit-identical; under (b)/(c) simulation-based distributions are compared through the statistic only"],
     "deciding": ["pair:events", "pair:catalogs", "pair:cells"],
 }
-META["added"] = 'Added: the same forecast written to .dat files in different cell orders and loaded by the real loader, catalogs carrying a region that lists the cells in another order, mirrored-cell benchmark on dyadic rates (exact opposite-sign ties for the rank test), in-place re-ordering of an already evaluated catalog object, near-tie quantile skip.'
+META["added"] = 'Added: the same forecast written to .dat files in different cell orders and loaded by the real loader, catalogs carrying a region that lists the cells in another order, mirrored-cell benchmark on dyadic rates (exact opposite-sign ties for the rank test), in-place re-ordering of an already evaluated catalog object, near-tie quantile skip. only forecast B re-listed; fixed seed 0.'
 MANIFEST = {
     "technique": "metamorphic recorder pairing two real executions of each public evaluation on permuted-but-equivalent inputs; equality oracle on statistic / analytic quantile / multiset of simulation-free distributions, bit equality under event permutation with a fixed seed",
     "level_text": "For generated forecasts/catalogs each of the 18 evaluation functions is executed on the original input and on event-, catalog- and cell-permuted equivalents (Cartesian and quadtree regions, events on cell boundaries); statistics and analytic quantiles must agree to rounding, simulation-free distributions as multisets, and seeded simulation-based results bit-for-bit under event permutation.",
@@ -114,7 +114,7 @@ def gridded_jobs(seed):
             ("brier", lambda a, b, c: br.brier_score_test(a, c, **k), "simbin")]
 
 
-def build_gridded(case, ratesB, cell_perm=None, event_order=None, quad=None):
+def build_gridded(case, ratesB, cell_perm=None, event_order=None, quad=None, perm_b_only=False):
     """Forecasts A, B and catalog on the (possibly cell-permuted) region. quad: list of quadkeys -> quadtree region."""
     from csep.core import regions
     rates = numpy.array(case["rates"], dtype=float)
@@ -151,6 +151,14 @@ def build_gridded(case, ratesB, cell_perm=None, event_order=None, quad=None):
         o = numpy.asarray(event_order, dtype=int)
         lons, lats, mvals, times, ids = lons[o], lats[o], mvals[o], times[o], [ids[i] for i in o]
     cat = fixtures.catalog(lons, lats, mvals, times=times, ids=ids, region=reg, name="obs")
+    if perm_b_only and quad is None and cell_perm is not None:
+        # only the benchmark forecast stores its cells (and, consistently, its rates) in the permuted order: forecast A and the catalog keep the
+        # original listing, each forecast looks the events up in its own grid
+        reg0 = regions.CartesianGrid2D.from_origins(origins, dh=float(case["dh"]), magnitudes=mags)
+        cat = fixtures.catalog(lons, lats, mvals, times=times, ids=ids, region=reg0, name="obs")
+        fa = fixtures.gridded_forecast(rates, reg0, mags, name="A")
+        fb = fixtures.gridded_forecast(B[perm], reg, mags, name="B")
+        return fa, fb, cat
     fa = fixtures.gridded_forecast(rates[perm], reg, mags, name="A")
     fb = fixtures.gridded_forecast(B[perm], reg, mags, name="B")
     return fa, fb, cat
@@ -226,6 +234,22 @@ def ex_gridded(ctx, case, ratesB, seed=0, quad=None):
                 continue
             compare(ctx, rc0, tags, base[name], other, "stat" if kind in ("sim", "simbin") else "multiset")
         ctx.count(len(jobs))
+    # (c') only forecast B is re-listed (comparison tests)
+    if quad is None and cell_perms:
+        p = cell_perms[0]
+        for name, fn, kind in jobs:
+            if kind != "analytic2" or name.startswith("binary"):
+                continue
+            fa, fb, cat = build_gridded(case, ratesB, cell_perm=p, perm_b_only=True)
+            ok, res, tb = ctx.call(fn, fa, fb, cat)
+            ctx.mon("pair:cells", 1)
+            tags = {"perm": "cells-of-forecast-B-only", "test": name, "region": "cartesian"}
+            other = sig(res, kind) if ok else ("raised", type(res).__name__)
+            if isinstance(base[name], tuple) or isinstance(other, tuple):
+                if base[name] != other:
+                    ctx.violate("evaluation raises for one storage order only", rc0, observed=repr(other)[:100], expected=repr(base[name])[:100], tags=tags)
+                continue
+            compare(ctx, rc0, tags, base[name], other, "multiset")
     distinct_bins = len({(a, b) for a, b in zip(case["ev_cell"], case["ev_mag"])})
     if (n >= 2 and distinct_bins >= 2) or ncell >= 2:
         ctx.nt(digest((case["rates"], case["ev_cell"], case["ev_mag"], seed, quad)))
@@ -238,7 +262,7 @@ def ex_gridded(ctx, case, ratesB, seed=0, quad=None):
 def ex_catalog(ctx, fc, seed=0):
     import csep.core.catalog_evaluations as ce
     rng = numpy.random.default_rng([seed, 21])
-    tmp = tempfile.mkdtemp(prefix="c20-", dir=os.environ.get("VERIF_TMP", "/var/tmp"))
+    tmp = scratch_dir("c20-")
     rc = {"exec": "catalog", "args": {"fc": fc, "seed": seed}}
     ctx.current_case = rc
     tests = [("catalog.N", ce.number_test, {"verbose": False}, "free"), ("catalog.S", ce.spatial_test, {"verbose": False}, "free"),
@@ -330,7 +354,7 @@ def ex_file_order(ctx, case11, seed=0):
         return
     rc = {"exec": "file_order", "args": {"case11": case11, "seed": seed}}
     ctx.current_case = rc
-    tmp = tempfile.mkdtemp(prefix="c20f-", dir=os.environ.get("VERIF_TMP", "/var/tmp"))
+    tmp = scratch_dir("c20f-")
     try:
         flags = lat.get("flags") or [1] * ncell
         good = [k for k in range(ncell) if flags[k] == 1]
@@ -414,7 +438,7 @@ def run(ctx):
                         magoff=r.uniform(0.1, 0.9, ne).tolist())
             B = rates[::-1]
             ctx.add("mirrored_benchmark_cases")
-        ex_gridded(ctx, case, B.tolist(), seed=int(r.integers(0, 10 ** 6)), quad=quad)
+        ex_gridded(ctx, case, B.tolist(), seed=int(r.integers(0, 10 ** 6)) if j % 4 else 0, quad=quad)      # every fourth case: the fixed seed is 0
         fc = c10.gen(r, obs_mode=str(r.choice(["normal", "dense", "normal", "unsampled-some"])), empty_mode=[None, "some"][j % 2])
         ex_catalog(ctx, fc, seed=int(r.integers(0, 10 ** 6)))
         if j % 2 == 0:
